@@ -829,7 +829,7 @@ import c07, common
 impl = c07.Impl()
 sc = json.load(open(sys.argv[1]))
 res = c07.run_scenario(impl, sc, sys.argv[2], sys.argv[3])
-print("RESULT " + json.dumps(c07.digest_obs(res)))
+print("RESULT " + json.dumps({"digest": c07.digest_obs(res), "errs": res["errs"]}))
 """
 
 
@@ -893,12 +893,12 @@ def main(ck):
             scenarios.append(json.load(open(os.path.join(cdir, fn)))["scenario"])
     scenarios += fixed_scenarios()
     scenarios += systematic_scenarios(rng, ck.tier)
-    n_rand = 170 if ck.tier == "quick" else 4000
+    n_rand = 170 if ck.tier == "quick" else 9000
     n_rand = int(os.environ.get("C07_NRAND", n_rand))
     for i in range(n_rand):
         scenarios.append(gen_scenario(rng, ck.tier, i))
     # fresh-process references (module-level state): polluted-history scenarios, one process each
-    n_sub = 2 if ck.tier == "quick" else 8
+    n_sub = 2 if ck.tier == "quick" else 10
     sub_idx = [i for i, sc in enumerate(scenarios)
                if sum(1 for a in sc["actions"] if a[0] == "enc" and a[2] == "ugrid") >= 2
                and not any(a[0] == "mat" and a[2] == "bounds" for a in sc["actions"])][:n_sub]
@@ -997,8 +997,12 @@ def main(ck):
         if p.returncode != 0 or not line:
             ck.proof["errors"].append("fresh-process reference failed: " + se[-600:])
             continue
-        ref = json.loads(line[0][7:])
-        if ref != digest_obs(results[i]):
+        refd = json.loads(line[0][7:])
+        ref = refd["digest"]
+        if refd["errs"]:
+            ck.proof["errors"].append("fresh-process reference could not build its grids: %s | stderr: %s"
+                                      % (refd["errs"][:2], se[-300:]))
+        elif ref != digest_obs(results[i]):
             ck.corr_failures.append({"what": "in-process run with reset globals differs from a fresh process",
                                      "scenario_index": i, "fresh": ref, "in_process": digest_obs(results[i])})
         else:
